@@ -264,6 +264,8 @@ impl IceConn {
             verif_sched::point("sig:before-remote-write");
             *self.remote_addr.write() = addr;
         }
+        #[cfg(rustrtc_verif)]
+        verif_sched::point("sig:unlocked");
         trace!(
             "IceConn: signaling RTP remote set to {} ({}), latch reset",
             addr, reason
@@ -697,6 +699,8 @@ impl PacketReceiver for IceConn {
                             );
                         }
                     }
+                    #[cfg(rustrtc_verif)]
+                    verif_sched::point("recv:unlocked");
                 }
             }
             let receiver = {
